@@ -79,6 +79,8 @@ def main(argv=None):
         return 0
 
     t0 = time.time()
+    from mc import corpus
+    corpus.set_tier(args.tier)
     tasks = mod.tasks(args.tier, seed)
     # engine self-test: the first task must replay identically
     selftest = None
